@@ -753,12 +753,12 @@ Proof.
     destruct res; intros H; pinv H; try (apply Jg_add_drops); try (apply Jg_kill; exact Hj1).
     destruct (Hf eq_refl) as [-> Hsp]. apply Jg_pend_tx; auto; try exact Logic.I.
   - destruct (s_alive s); cbn [negb]; [|intros H; pinv H; exact Hj].
-    destruct (N.eqb sent total); [intros H; pinv H; apply Jg_kill; exact Hj|].
+    destruct (N.eqb sent total); [intros H; pinv H; apply Jg_add_drops, Jg_kill; exact Hj|].
     destruct (s_closed s) eqn:Ec; [intros H; pinv H; apply Jg_add_drops, Jg_kill; exact Hj|].
     destruct (send_some rest s) as [[[s1 k] rest']|] eqn:Es;
       [|intros H; pinv H; apply Jg_add_drops, Jg_kill; exact Hj].
     destruct (send_some_J rest s s1 k rest' Hj Hcl Hml Es) as (Hj1 & Hc1 & Hr & Hk & Hsp).
-    destruct (N.eqb_spec (sent + k) total) as [He|Hne]; intros H; pinv H; [apply Jg_kill; exact Hj1|].
+    destruct (N.eqb_spec (sent + k) total) as [He|Hne]; intros H; pinv H; [apply Jg_add_drops, Jg_kill; exact Hj1|].
     cbn [fut_wf] in Hwf. apply Jg_pend_tx; auto.
     + cbn [fut_wf]. pose proof (skipnN_len k rest Hk). lia.
     + congruence.
